@@ -30,7 +30,14 @@ Inductive kind := KOwned | KBorrowed | KShared.
 Definition kind_of (l cap : N) : kind :=
   if cap =? MAXU then KShared else if cap =? 0 then KBorrowed else KOwned.
 
-Inductive ptr := PStatic (d : content) | PHeap (a : nat) | PArc (r : nat) | PDangling.
+(* a pointer into static data is the static buffer (immutable, lives forever, so it is carried by
+   value) and the offset of the pointed-to element: two borrows of one buffer can start at the same
+   address with different lengths, overlap, or hold equal content at different addresses *)
+Inductive ptr := PStatic (buf : content) (off : N) | PHeap (a : nat) | PArc (r : nat) | PDangling.
+
+(* &buf[off .. off+n] *)
+Definition slice (buf : content) (off n : N) : option content :=
+  if off + n <=? len buf then Some (take n (skipn (N.to_nat off) buf)) else None.
 Record cow := mkcow { c_ptr : ptr; c_len : N; c_cap : N }.
 (* a Vec/String value held by the caller has the same three words *)
 
@@ -44,7 +51,7 @@ Record st := mkst {
 Definition init : st := mkst [] [] [] 0 0.
 
 Inductive fault := UseAfterFree | DoubleFree | OutOfBounds | BadFree | WildPointer | Crash.
-Inductive res := RUnit | RContent (d : content) | RStd (borrowed : bool) (d : content) | RCmp (o : N) | RPanic | RBad | RFault (f : fault).
+Inductive res := RUnit | RContent (d : content) | RStd (borrowed : bool) (d : content) | RCmp (o : N) (e : bool) (he : bool) | RPanic | RBad | RFault (f : fault).
 
 Definition bind {A B} (x : fault + A) (f : A -> fault + B) : fault + B :=
   match x with inl e => inl e | inr a => f a end.
@@ -60,7 +67,7 @@ Definition add_elems (s : st) (z : Z) : st :=
    the kind is not consulted *)
 Definition read (s : st) (c : cow) : fault + content :=
   match c_ptr c with
-  | PStatic d => if c_len c <=? len d then inr (take (c_len c) d) else inl OutOfBounds
+  | PStatic buf off => match slice buf off (c_len c) with Some d => inr d | None => inl OutOfBounds end
   | PHeap a => match nth_error (allocs s) a with
                | None => inl WildPointer
                | Some al => if a_freed al then inl UseAfterFree
@@ -201,13 +208,20 @@ Fixpoint lcmp (a b : content) : N :=      (* slice / str ordering: 0 Less, 1 Equ
   | x :: a', y :: b' => if x <? y then 0 else if y <? x then 2 else lcmp a' b'
   end.
 
+Fixpoint ceqb (a b : content) : bool :=    (* slice / str equality *)
+  match a, b with
+  | [], [] => true
+  | x :: a', y :: b' => (x =? y) && ceqb a' b'
+  | _, _ => false
+  end.
+
 Inductive op :=
-| FromBorrowed (d : content)          (* from_borrowed / const_str / const_slice of a static *)
+| FromBorrowed (buf : content) (off n : N)   (* from_borrowed / const_str / const_slice of &buf[off..off+n], buf static *)
 | FromOwned (d : content) (cap : N)   (* the caller builds a Vec/String (len d, cap) and hands it over *)
 | FromShared (r : nat)                (* the caller clones one of its Arcs and hands the clone over *)
 | Clone (h : nat)
 | Deref (h : nat)
-| Cmp (h h' : nat)                    (* eq / cmp / hash all go through deref *)
+| Cmp (h h' : nat)                    (* Ord::cmp, PartialEq::eq, equality of the two Hash results: all through deref *)
 | IntoOwned (h : nat)                 (* the caller reads the returned value and drops it *)
 | IntoStdCow (h : nat)                (* std::borrow::Cow::from(cow); the caller reads the result and drops it *)
 | Drop (h : nat)                      (* on this or on another thread *)
@@ -219,7 +233,11 @@ Definition fin (s : st) (x : fault + (res * st)) : res * st :=
 
 Definition step (tr : bool) (s : st) (o : op) : res * st :=
   match o with
-  | FromBorrowed d => (RUnit, push s (mkcow (PStatic d) (len d) 0))   (* Metadata::borrowed(len) *)
+  | FromBorrowed buf off n =>
+      match slice buf off n with
+      | Some _ => (RUnit, push s (mkcow (PStatic buf off) n 0))          (* Metadata::borrowed(len) *)
+      | None => (RBad, s)                                                 (* no such slice *)
+      end
   | FromOwned d cap =>
       if cap <? len d then (RBad, s)                                   (* no such Vec *)
       else if cap =? MAXU then (RPanic, add_elems s (ec tr (len d)))   (* ZST elements only: ManuallyDrop'd, then panic *)
@@ -244,7 +262,7 @@ Definition step (tr : bool) (s : st) (o : op) : res * st :=
       end
   | Cmp h h' =>
       match get s h, get s h' with
-      | Some c, Some c' => fin s (do d <- read s c; do d' <- read s c'; inr (RCmp (lcmp d d'), s))
+      | Some c, Some c' => fin s (do d <- read s c; do d' <- read s c'; inr (RCmp (lcmp d d') (ceqb d d') (ceqb d d'), s))
       | _, _ => (RBad, s)
       end
   | IntoOwned h =>
